@@ -72,3 +72,18 @@ Definition m_obs (s : mstate) : list Z :=
 Definition mixed_mismatch (k : mcase) : bool :=
   let (s', ok) := mtx (mc_prog k) (m_init (mc_n k)) in
   negb (Bool.eqb ok (mc_ok k) && zl_eqb (m_obs s') (mc_obs k)).
+
+(* ---- legacy (non-FIP20) externally-owned tokens: harness/c08 part C ---- *)
+Record gcase := { gc_f : flavor; gc_tok : list (Z * Z); gc_ops : list (lop * bool * list Z) }.
+Definition mk_gcase f t ops : gcase := {| gc_f := f; gc_tok := t; gc_ops := ops |}.
+Definition g_obs (s : lstate) : list Z :=
+  [l_esc s; l_sup s; lget 100 (l_tok s); lget 101 (l_tok s); lget 100 (l_coin s); lget 101 (l_coin s)].
+Fixpoint gfirst_bad (f : flavor) (i : Z) (s : lstate) (l : list (lop * bool * list Z)) : Z :=
+  match l with
+  | [] => -1
+  | (o, ok, obs) :: r =>
+    let (s', ok') := lstep f s o in
+    if Bool.eqb ok ok' && zl_eqb (g_obs s') obs then gfirst_bad f (i + 1) s' r else i
+  end.
+Definition legacy_mismatch (k : gcase) : bool :=
+  negb (gfirst_bad (gc_f k) 0 {| l_esc := 0; l_sup := 0; l_tok := gc_tok k; l_coin := [] |} (gc_ops k) =? -1).
